@@ -248,17 +248,21 @@ def newTx (g : Gw) (kind : TxKind) (key : TxKey) (timer : Option Nat) : Nat × G
 def storeById (g : Gw) (mid : UInt16) (tx : Nat) : Gw := { g with byId := (mid, tx) :: g.byId }
 def lookupById (g : Gw) (mid : UInt16) : Option Tx := (g.byId.lookup mid).bind g.getTx
 
+/-- `RetryTransaction.Proceed(state, data)`: new state and data, retry counter reset, timer
+    re-armed — unless the transaction is finished already (a finished transaction stays finished) -/
+def armBp (g : Gw) (t : Tx) (q : UInt8) (st : BpSt) (data : BpData) (snp : Option Pkt) : Gw :=
+  if t.done then g
+  else g.setTx { t with kind := .brokerPub q st data snp 0, timer := some (g.now + g.cfg.retryDelay) }
+
+/-- `Success()` when the new state is `transactionDone` -/
+def finishIfDone (g : Gw) (id : Nat) (st : BpSt) : Gw := if st = .done then g.finishTx id else g
+
 /-- `ProceedSN(newState, snPkt)` -/
 def proceedSN (g : Gw) (id : Nat) (st : BpSt) (p : Pkt) : Gw :=
   match g.getTx id with
   | some t =>
     match t.kind with
-    | .brokerPub q _ _ snp _ =>
-      -- Proceed: a finished transaction stays finished
-      let g1 := if t.done then g else
-        g.setTx { t with kind := .brokerPub q st (.sn p) snp 0, timer := some (g.now + g.cfg.retryDelay) }
-      let g2 := g1.snSend p (some id)
-      if st = .done then g2.finishTx id else g2
+    | .brokerPub q _ _ snp _ => (((g.armBp t q st (.sn p) snp).snSend p (some id)).finishIfDone id st)
     | _ => g
   | none => g
 
@@ -267,11 +271,7 @@ def proceedMQ (g : Gw) (id : Nat) (st : BpSt) (p : MqPkt) : Gw :=
   match g.getTx id with
   | some t =>
     match t.kind with
-    | .brokerPub q _ _ snp _ =>
-      let g1 := if t.done then g else
-        g.setTx { t with kind := .brokerPub q st (.mq p) snp 0, timer := some (g.now + g.cfg.retryDelay) }
-      let g2 := g1.mqttSend p
-      if st = .done then g2.finishTx id else g2
+    | .brokerPub q _ _ snp _ => (((g.armBp t q st (.mq p) snp).mqttSend p).finishIfDone id st)
     | _ => g
   | none => g
 
@@ -332,26 +332,39 @@ def decodePlain (data : Bytes) : Option (Bytes × Bytes) :=
 
 def plainMethod : Bytes := [0x50, 0x4C, 0x41, 0x49, 0x4E]   -- "PLAIN"
 
+/-- the `mqConnect` packet `handleConnect` prepares -/
+def mkConnFields (cfg : Cfg) (will clean : Bool) (dur : UInt16) (cid : Bytes) : ConnFields :=
+  { cid := cid, clean := clean, ka := dur,
+    uflag := cfg.user.isSome, user := cfg.user.getD [],
+    pflag := cfg.pass.isSome, pass := cfg.pass.getD [], will := will }
+
+/-- "Cancel previous transaction, if any." -/
+def cancelOldConnect (g : Gw) : Gw :=
+  match g.connectTx with
+  | some old => g.finishTx old
+  | none => g
+
+/-- `transaction.Start(ctx)` -/
+def startConnectTx (g : Gw) (id : Nat) (f : ConnFields) : Gw :=
+  if g.cfg.auth then g
+  else match g.getTx id with
+    | some t => g.connAuthenticated t f
+    | none => g
+
+/-- create the connect transaction, store it by type, start it -/
+def setConnectTx (g : Gw) (id : Nat) : Gw := { g with connectTx := some id }
+
+def startConnect (g : Gw) (f : ConnFields) : Gw :=
+  (((g.newTx (.connect .awaitingAuth f) .connectType (some (g.now + Gen.connectTransactionTimeout))).2.setConnectTx
+        g.nextTx).startConnectTx g.nextTx f)
+
 def handleConnect (g : Gw) (will clean : Bool) (dur : UInt16) (cid : Bytes) : Gw :=
   if g.st = .awake ∨ g.st = .asleep then
     (({ g with st := .active }).snSend (.connack Gen.RC_ACCEPTED)).flushBuffer
   else if dur = 0 then g.snSend (.connack Gen.RC_NOT_SUPPORTED)
   else
-    let g := { g with keepAlive := dur, clientId := cid }
-    let f : ConnFields := {
-      cid := cid, clean := clean, ka := dur,
-      uflag := g.cfg.user.isSome, user := g.cfg.user.getD [],
-      pflag := g.cfg.pass.isSome, pass := g.cfg.pass.getD [], will := will }
-    -- cancel the previous connect transaction, if any
-    let g := match g.connectTx with
-      | some old => g.finishTx old
-      | none => g
-    let (id, g) := g.newTx (.connect .awaitingAuth f) .connectType (some (g.now + Gen.connectTransactionTimeout))
-    let g := { g with connectTx := some id }
-    if g.cfg.auth then g
-    else match g.getTx id with
-      | some t => g.connAuthenticated t f
-      | none => g
+    ((({ g with keepAlive := dur, clientId := cid } : Gw).cancelOldConnect).startConnect
+      (mkConnFields g.cfg will clean dur cid))
 
 def connAuth (g : Gw) (t : Tx) (st : ConnSt) (f : ConnFields) (method data : Bytes) : Gw :=
   if st ≠ .awaitingAuth then g
@@ -409,6 +422,15 @@ def resolveTopic (g : Gw) (tit : UInt8) (id : UInt16) : TopicRes :=
   else if tit = Gen.TIT_SHORT then .ok (decodeShortTopic id)
   else .invalidType
 
+/-- QoS -1 becomes QoS 0 -/
+def mqQos (qos : UInt8) : UInt8 := if qos = 3 then 0 else qos
+
+/-- a client QoS-1 PUBLISH gets a transaction that remembers its topic ID (stored by message ID) -/
+def storeClientPub1 (g : Gw) (qos : UInt8) (tid mid : UInt16) : Gw :=
+  if qos = 1 then
+    (g.newTx (.clientPub1 tid) (.byId mid) (some (g.now + g.cfg.retryDelay))).2.storeById mid g.nextTx
+  else g
+
 def handleClientPublish (g : Gw) (dup : Bool) (qos : UInt8) (retain : Bool) (tit : UInt8)
     (tid mid : UInt16) (data : Bytes) : Gw :=
   match g.resolveTopic tit tid with
@@ -417,55 +439,44 @@ def handleClientPublish (g : Gw) (dup : Bool) (qos : UInt8) (retain : Bool) (tit
   | .ok topic =>
     if topic.isEmpty || hasWildcard topic then g.fail .badTopic
     else
-      let g := if qos = 1 then
-          let (id, g) := g.newTx (.clientPub1 tid) (.byId mid) (some (g.now + g.cfg.retryDelay))
-          g.storeById mid id
-        else g
-      let q' : UInt8 := if qos = 3 then 0 else qos
       -- paho writes (and the broker reads) the message ID only for QoS > 0
-      g.mqttSend (.publish dup q' retain (if q' = 0 then 0 else mid) topic data)
+      (g.storeClientPub1 qos tid mid).mqttSend
+        (.publish dup (mqQos qos) retain (if mqQos qos = 0 then 0 else mid) topic data)
+
+/-- forward a SUBSCRIBE with the resolved filter; the transaction (stored by message ID)
+    remembers the topic ID for the SUBACK -/
+def forwardSubscribe (g : Gw) (dup : Bool) (qos : UInt8) (mid : UInt16) (topic : Bytes) (topicId : UInt16) : Gw :=
+  if topic.isEmpty then g.fail .badTopic
+  else
+    (((g.newTx (.subscribe topicId) (.byId mid) (some (g.now + g.cfg.retryDelay))).2.storeById mid g.nextTx).mqttSend
+      (.subscribe mid dup topic qos))
 
 def handleSubscribe (g : Gw) (dup : Bool) (qos tit : UInt8) (mid tid : UInt16) (name : Bytes) : Gw :=
   if qos > 2 then g.snSend (.suback 0 0 mid Gen.RC_NOT_SUPPORTED)
-  else
-    -- (topic, topicID for the SUBACK, state after a possible allocation) or an early exit
-    let r : Option (Bytes × UInt16 × Gw) ⊕ Gw :=
-      if tit = Gen.TIT_STRING then
-        if !hasWildcard name then
-          match g.newTopicId with
-          | (some id, g') => .inl (some (name, id, g'.storeRegistered id name))
-          | (none, g') => .inr (g'.snSend (.suback 0 0 mid Gen.RC_INVALID_TOPIC_ID))
-        else .inl (some (name, 0, g))
-      else if tit = Gen.TIT_PREDEFINED then
-        match g.predefName tid with
-        | some n => .inl (some (n, tid, g))
-        | none => .inr (g.fail .unknownTopic)
-      else if tit = Gen.TIT_SHORT then .inl (some (decodeShortTopic tid, 0, g))
-      else .inl (some ([], 0, g))
-    match r with
-    | .inr g' => g'
-    | .inl none => g
-    | .inl (some (topic, topicId, g)) =>
-      if topic.isEmpty then g.fail .badTopic
-      else
-        let (id, g) := g.newTx (.subscribe topicId) (.byId mid) (some (g.now + g.cfg.retryDelay))
-        let g := g.storeById mid id
-        g.mqttSend (.subscribe mid dup topic qos)
+  else if tit = Gen.TIT_STRING then
+    if !hasWildcard name then
+      match g.newTopicId with
+      | (some id, g') => (g'.storeRegistered id name).forwardSubscribe dup qos mid name id
+      | (none, g') => g'.snSend (.suback 0 0 mid Gen.RC_INVALID_TOPIC_ID)
+    else g.forwardSubscribe dup qos mid name 0
+  else if tit = Gen.TIT_PREDEFINED then
+    match g.predefName tid with
+    | some n => g.forwardSubscribe dup qos mid n tid
+    | none => g.fail .unknownTopic
+  else if tit = Gen.TIT_SHORT then g.forwardSubscribe dup qos mid (decodeShortTopic tid) 0
+  else g.forwardSubscribe dup qos mid [] 0
+
+def forwardUnsubscribe (g : Gw) (mid : UInt16) (topic : Bytes) : Gw :=
+  if topic.isEmpty then g.fail .badTopic else g.mqttSend (.unsubscribe mid topic)
 
 def handleUnsubscribe (g : Gw) (tit : UInt8) (mid tid : UInt16) (name : Bytes) : Gw :=
-  let r : Option Bytes ⊕ Gw :=
-    if tit = Gen.TIT_STRING then .inl (some name)
-    else if tit = Gen.TIT_PREDEFINED then
-      match g.predefName tid with
-      | some n => .inl (some n)
-      | none => .inr (g.fail .unknownTopic)
-    else if tit = Gen.TIT_SHORT then .inl (some (decodeShortTopic tid))
-    else .inl (some [])
-  match r with
-  | .inr g' => g'
-  | .inl none => g
-  | .inl (some topic) =>
-    if topic.isEmpty then g.fail .badTopic else g.mqttSend (.unsubscribe mid topic)
+  if tit = Gen.TIT_STRING then g.forwardUnsubscribe mid name
+  else if tit = Gen.TIT_PREDEFINED then
+    match g.predefName tid with
+    | some n => g.forwardUnsubscribe mid n
+    | none => g.fail .unknownTopic
+  else if tit = Gen.TIT_SHORT then g.forwardUnsubscribe mid (decodeShortTopic tid)
+  else g.forwardUnsubscribe mid []
 
 def handleRegister (g : Gw) (mid : UInt16) (name : Bytes) : Gw :=
   if hasWildcard name then g.snSend (.regack 0 mid Gen.RC_NOT_SUPPORTED)
@@ -499,9 +510,8 @@ def bpRegack (g : Gw) (t : Tx) (q : UInt8) (st : BpSt) (data : BpData) (snp : Op
   else
     match data, snp with
     | .sn (.register tid _ name), some pub =>
-      let g := g.storeRegistered tid name
-      let next : BpSt := if q = 0 then .done else if q = 1 then .awaitingPuback else .awaitingPubrec
-      g.proceedSN t.id next pub
+      (g.storeRegistered tid name).proceedSN t.id
+        (if q = 0 then .done else if q = 1 then .awaitingPuback else .awaitingPubrec) pub
     | _, _ => g
 
 /-- the "almost surely available" message ID for a QoS-0 publish that needs a REGISTER -/
@@ -511,43 +521,73 @@ def freeMsgId (g : Gw) : Nat → Option UInt16
     let i := UInt16.ofNat (n + 1)
     if (g.byId.lookup i).isNone then some i else freeMsgId g n
 
+/-- topic ID and type under which the client knows a broker topic name; `none` when the name
+    needs a REGISTER first -/
+def brokerTopicId (g : Gw) (topic : Bytes) : Option (UInt16 × UInt8) :=
+  if isShortTopic topic then some (encodeShortTopic topic, Gen.TIT_SHORT)
+  else match g.findRegisteredId topic with
+    | some id => some (id, Gen.TIT_REGISTERED)
+    | none => match (g.cfg.predef.getTopicIdSet g.clientId topic).head? with
+      | some id => some (id, Gen.TIT_PREDEFINED)
+      | none => none
+
+/-- message ID of the REGISTER: the broker's one for QoS > 0, a free one for QoS 0 -/
+def bpMsgId (g : Gw) (qos : UInt8) (mid : UInt16) : Option UInt16 :=
+  if qos = 0 then g.freeMsgId Gen.MaxPacketID.toNat else some mid
+
+/-- create a broker-publish transaction, store it by message ID and send its first packet -/
+def startBrokerPub (g : Gw) (qos : UInt8) (msgId : UInt16) (st0 : BpSt) (snp : Option Pkt) (st : BpSt)
+    (first : Pkt) : Gw :=
+  (((g.newTx (.brokerPub qos st0 .none snp 0) (.byId msgId) none).2.storeById msgId g.nextTx).proceedSN
+    g.nextTx st first)
+
 def handleBrokerPublish (g : Gw) (dup : Bool) (qos : UInt8) (retain : Bool) (mid : UInt16)
     (topic payload : Bytes) : Gw :=
   if payload.length > Gen.MaxPayloadLength ∨ topic.length > Gen.MaxPayloadLength then g
   else if topic.isEmpty then g
   else
-    -- topic ID
-    let (tid, tit, needsRegister) : UInt16 × UInt8 × Bool :=
-      if isShortTopic topic then (encodeShortTopic topic, Gen.TIT_SHORT, false)
-      else match g.findRegisteredId topic with
-        | some id => (id, Gen.TIT_REGISTERED, false)
-        | none => match (g.cfg.predef.getTopicIdSet g.clientId topic).head? with
-          | some id => (id, Gen.TIT_PREDEFINED, false)
-          | none => (0, 0, true)
-    let snPublish : Pkt := .publish dup qos retain tit tid mid payload
-    if qos = 0 ∧ ¬ needsRegister then g.snSend snPublish
-    else
-      let msgId? : Option UInt16 :=
-        if qos = 0 then g.freeMsgId Gen.MaxPacketID.toNat else some mid
-      match msgId? with
+    match g.brokerTopicId topic with
+    | some (tid, tit) =>
+      if qos = 0 then g.snSend (.publish dup qos retain tit tid mid payload)
+      else if qos > 2 then g.fail .error
+      else g.startBrokerPub qos mid .done none (if qos = 1 then .awaitingPuback else .awaitingPubrec)
+        (.publish dup qos retain tit tid mid payload)
+    | none =>
+      match g.bpMsgId qos mid with
       | none => g.fail .error
       | some msgId =>
         if qos > 2 then g.fail .error
-        else if needsRegister then
+        else
           match g.newTopicId with
           | (none, g') => g'.fail .error
           | (some newId, g') =>
-            let pub : Pkt := .publish dup qos retain tit newId mid payload
-            let reg : Pkt := .register newId msgId topic
-            let (id, g') := g'.newTx (.brokerPub qos .awaitingRegack .none (some pub) 0) (.byId msgId) none
-            let g' := g'.storeById msgId id
-            g'.proceedSN id .awaitingRegack reg
-        else
-          let (id, g') := g.newTx (.brokerPub qos .done .none none 0) (.byId msgId) none
-          let g' := g'.storeById msgId id
-          g'.proceedSN id (if qos = 1 then .awaitingPuback else .awaitingPubrec) snPublish
+            g'.startBrokerPub qos msgId .awaitingRegack (some (.publish dup qos retain 0 newId mid payload))
+              .awaitingRegack (.register newId msgId topic)
 
 /-! ## dispatch -/
+
+def setSt (g : Gw) (st : CState) : Gw := { g with st := st }
+def clearBuffer (g : Gw) : Gw := { g with buffer := [] }
+
+/-- PINGREQ: a sleeping client wakes up, gets its buffered packets and PINGRESP, and is asleep
+    again; otherwise the ping goes to the broker -/
+def handlePingreq (g : Gw) : Gw :=
+  if g.st = .asleep then ((((g.setSt .awake).flushBuffer).snSend .pingresp).setSt .asleep)
+  else g.mqttSend .pingreq
+
+def maybeSleepPinger (g : Gw) (d : UInt16) : Gw :=
+  if g.keepAlive ≠ 0 ∧ d > g.keepAlive then g.startSleepPinger d else g
+
+/-- the plain DISCONNECT, forwarded to the broker -/
+def handlePlainDisconnect (g : Gw) : Gw :=
+  ((((g.mqttSend .disconnect).setSt .disconnected).snSend (.disconnect 0)).fail .clean)
+
+/-- DISCONNECT with a duration: the client goes to sleep -/
+def handleSleep (g : Gw) (d : UInt16) : Gw :=
+  ((((g.maybeSleepPinger d).clearBuffer).snSend (.disconnect 0)).setSt .asleep)
+
+def handleDisconnect (g : Gw) (d : UInt16) : Gw :=
+  if d = 0 then g.handlePlainDisconnect else g.handleSleep d
 
 /-- `handleMqttSn` for a decoded packet -/
 def handleSn (g : Gw) (p : Pkt) : Gw :=
@@ -571,21 +611,8 @@ def handleSn (g : Gw) (p : Pkt) : Gw :=
   | .pubrel mid => g.mqttSend (.pubrel mid)
   | .subscribe dup q tit mid tid name => g.handleSubscribe dup q tit mid tid name
   | .unsubscribe tit mid tid name => g.handleUnsubscribe tit mid tid name
-  | .pingreq _ =>
-    if g.st = .asleep then
-      let g := ({ g with st := .awake }).flushBuffer
-      let g := g.snSend .pingresp
-      { g with st := .asleep }
-    else g.mqttSend .pingreq
-  | .disconnect d =>
-    if d = 0 then
-      let g := g.mqttSend .disconnect
-      let g := ({ g with st := .disconnected }).snSend (.disconnect 0)
-      g.fail .clean
-    else
-      let g := if g.keepAlive ≠ 0 ∧ d > g.keepAlive then g.startSleepPinger d else g
-      let g := ({ g with buffer := [] }).snSend (.disconnect 0)
-      { g with st := .asleep }
+  | .pingreq _ => g.handlePingreq
+  | .disconnect d => g.handleDisconnect d
   | .regack _ mid rc =>
     match g.lookupById mid with
     | some t => match t.kind with
@@ -638,9 +665,8 @@ def handleMq (g : Gw) (p : MqPkt) : Gw :=
       | .subscribe tid =>
         match codes with
         | [c] =>
-          let g' := g.finishTx t.id
-          if c ≤ 2 then g'.snSend (.suback c tid mid Gen.RC_ACCEPTED)
-          else g'.snSend (.suback 0 tid mid Gen.RC_NOT_SUPPORTED)
+          if c ≤ 2 then (g.finishTx t.id).snSend (.suback c tid mid Gen.RC_ACCEPTED)
+          else (g.finishTx t.id).snSend (.suback 0 tid mid Gen.RC_NOT_SUPPORTED)
         | _ => (g.finishTx t.id).fail .error
       | _ => g
     | none => g
@@ -680,39 +706,52 @@ def nextDue (g : Gw) (t : Nat) : Option Due :=
     | none => some d
     | some b => if d.time < b.time then some d else some b) none
 
+def setNow (g : Gw) (t : Nat) : Gw := { g with now := t }
+
+def fireTx (g : Gw) (id : Nat) : Gw :=
+  match g.getTx id with
+  | some t => g.txExpire t
+  | none => g
+
+/-- a sleep pinger's ticker: next tick one period later, PINGREQ to the broker -/
+def firePing (g : Gw) (i : Nat) : Gw :=
+  ({ g with pingers := g.pingers.mapIdx (fun j (p : Pinger) =>
+      if j = i then { p with next := p.next + p.period } else p) } : Gw).mqttSend .pingreq
+
+def dropPinger (g : Gw) (i : Nat) : Gw := { g with pingers := g.pingers.eraseIdx i }
+
 def fireDue (g : Gw) (d : Due) : Gw :=
-  let g := { g with now := d.time }
   match d with
-  | .tx id _ => match g.getTx id with
-    | some t => g.txExpire t
-    | none => g
-  | .ping i _ =>
-    let g' := { g with pingers := g.pingers.mapIdx (fun j (p : Pinger) =>
-      if j = i then { p with next := p.next + p.period } else p) }
-    g'.mqttSend .pingreq
-  | .pingCancel i _ => { g with pingers := g.pingers.eraseIdx i }
+  | .tx id _ => (g.setNow d.time).fireTx id
+  | .ping i _ => (g.setNow d.time).firePing i
+  | .pingCancel i _ => (g.setNow d.time).dropPinger i
+
+/-- the shutdown goroutine: DISCONNECT to an active or awake client -/
+def shutdownDisconnect (g : Gw) : Gw :=
+  if g.st = .active ∨ g.st = .awake then g.emit (.sn (encode (.disconnect 0))) else g
+
+/-- all timers stop with the session -/
+def stopTimers (g : Gw) : Gw :=
+  { g with endedEmitted := true, txs := g.txs.map fun t => { t with timer := none }, pingers := [] }
+
+def emitEnd (g : Gw) : Gw := (g.emit (.ended g.endCls)).emit .mqClose
 
 /-- session end: emitted once, when the context has been cancelled -/
 def finishSession (g : Gw) : Gw :=
   match g.cancelledAt with
   | some tc =>
     if g.endedEmitted then g
-    else
-      let g := { g with now := tc }
-      -- the shutdown goroutine: DISCONNECT to an active or awake client
-      let g := if g.st = .active ∨ g.st = .awake then g.emit (.sn (encode (.disconnect 0))) else g
-      let g := (g.emit (.ended g.endCls)).emit .mqClose
-      { g with endedEmitted := true, txs := g.txs.map fun t => { t with timer := none }, pingers := [] }
+    else ((((g.setNow tc).shutdownDisconnect).emitEnd).stopTimers)
   | none => g
 
 /-- advance the clock to `t`, firing every timer due on the way (fuel bounds the number of firings) -/
 def advance : Nat → Gw → Nat → Gw
-  | 0, g, t => { g with now := max g.now t }
+  | 0, g, t => g.setNow (max g.now t)
   | fuel + 1, g, t =>
-    if !g.alive then { g.finishSession with now := max g.now t }
+    if !g.alive then g.finishSession.setNow (max g.now t)
     else match g.nextDue t with
       | some d => advance fuel (g.fireDue d).finishSession t
-      | none => { g with now := max g.now t }
+      | none => g.setNow (max g.now t)
 
 /-- external events -/
 inductive Event where
@@ -730,32 +769,38 @@ def liveRegistry (g : Gw) : List (UInt16 × Bytes) :=
   let live := ids.filterMap fun id => (g.registered.lookup id).map fun n => (id, n)
   (live.toArray.qsort (fun a b => a.1 < b.1)).toList
 
+def bufferBytes (g : Gw) : List Bytes := g.buffer.map fun it => encode it.pkt
+
+def sampleState (g : Gw) : Gw :=
+  if g.st ≠ g.sampledState then ({ g with sampledState := g.st } : Gw).emit (.state g.st) else g
+def sampleReg (g : Gw) : Gw :=
+  if g.liveRegistry ≠ g.sampledReg then ({ g with sampledReg := g.liveRegistry } : Gw).emit (.reg g.liveRegistry) else g
+def sampleBuf (g : Gw) : Gw :=
+  if g.bufferBytes ≠ g.sampledBuf then ({ g with sampledBuf := g.bufferBytes } : Gw).emit (.buf g.bufferBytes) else g
+
 /-- the harness samples state and registry after every scripted event and reports changes -/
-def sample (g : Gw) : Gw :=
-  let g := if g.st ≠ g.sampledState then ({ g with sampledState := g.st }).emit (.state g.st) else g
-  let r := g.liveRegistry
-  let g := if r ≠ g.sampledReg then ({ g with sampledReg := r }).emit (.reg r) else g
-  let b := g.buffer.map fun it => encode it.pkt
-  if b ≠ g.sampledBuf then ({ g with sampledBuf := b }).emit (.buf b) else g
+def sample (g : Gw) : Gw := g.sampleState.sampleReg.sampleBuf
+
+/-- the handler's reaction to one external event -/
+def handleEvent (g : Gw) (ev : Event) : Gw :=
+  match ev with
+  | .sn bytes =>
+    match decode (bytes.take Gen.MaxPacketLen) with
+    | .ok (_, p) => g.handleSn p
+    | _ => g.fail .snDecode
+  | .mq p => g.handleMq p
+  | .mqGarbage => g.fail .mqDecode
+  | .mqEof => if g.st = .disconnected then g.fail .clean else g.fail .mqttClosed
+  | .shutdown => g.fail .clean
+  | .tick => g
+
+/-- an event reaches a live session; zero-delay timers armed by the handler fire at the same instant -/
+def deliver (g : Gw) (t : Nat) (ev : Event) : Gw :=
+  if !g.alive then g.finishSession
+  else (advance 100000 (g.handleEvent ev) t).finishSession
 
 /-- one event at time `t` (without the instrumentation) -/
-def stepCore (g : Gw) (t : Nat) (ev : Event) : Gw :=
-  let g := advance 100000 g t
-  if !g.alive then g.finishSession
-  else
-    let g := match ev with
-      | .sn bytes =>
-        match decode (bytes.take Gen.MaxPacketLen) with
-        | .ok (_, p) => g.handleSn p
-        | _ => g.fail .snDecode
-      | .mq p => g.handleMq p
-      | .mqGarbage => g.fail .mqDecode
-      | .mqEof => if g.st = .disconnected then g.fail .clean else g.fail .mqttClosed
-      | .shutdown => g.fail .clean
-      | .tick => g
-    -- zero-delay timers armed by the handler fire at the same instant
-    let g := advance 100000 g t
-    g.finishSession
+def stepCore (g : Gw) (t : Nat) (ev : Event) : Gw := (advance 100000 g t).deliver t ev
 
 def step (g : Gw) (t : Nat) (ev : Event) : Gw := (g.stepCore t ev).sample
 
